@@ -5,7 +5,7 @@
    [f xs] on top of the untouched remainder (every position, also below 15) with depth >= 16. *)
 From Coq Require Import ZArith List Bool Arith Lia String.
 From MV Require Import Base.Field Core.Op Vm.Pure Vm.PureProps Vm.State Vm.Step Vm.StepProps
-  Gen.AsmGen Asm.Instr Asm.StackInstr Asm.FieldInstr Asm.U32Instr Asm.ImmInstr.
+  Gen.AsmGen Asm.SpecDefs Asm.Instr Asm.StackInstr Asm.FieldInstr Asm.U32Instr Asm.ImmInstr.
 Import ListNotations.
 Open Scope Z_scope.
 
